@@ -435,10 +435,16 @@ def explore_one(con: Contract, case, prefix, first):
     t0 = time.time()
     q0, s0 = STATS.queries, STATS.solver_s
     worklist = []
+    from . import modstate
+
+    modstate.begin_path()
     try:
         # the planted must-fail assertion goes on every path: it shows the pipeline can fail and that the
         # path condition of every explored path is satisfiable (no vacuous paths)
-        run_path(con, case, prefix, worklist, report, plant_canary=True)
+        try:
+            run_path(con, case, prefix, worklist, report, plant_canary=True)
+        finally:
+            modstate.end_path()
     except Unsupported as u:
         report.outside_reach = f"{u}"
         if os.environ.get("PYVC_DEBUG"):
